@@ -15,8 +15,9 @@ C07  Selection protocols turn criteria into valid, correct cross configurations 
   (R1-outcross of C17: the exchange search itself)
 """
 import ast
+import re
 
-from sa.astutil import dump, where, kwargs_of, walk_no_nested, field_of
+from sa.astutil import alpha_normalise, dump, where, kwargs_of, walk_no_nested, field_of
 from sa.model import body_nodoc
 from rules import c17
 
@@ -184,6 +185,25 @@ def check_select(prog, rep):
                 rep.ok("R1-select", g.qualname, "problem(same-named args) -> self.%s.minimize(prob) -> solution fields copied by name" % algo)
 
 
+def _canon_calls(prog, f, nodes):
+    """rewrite every call of a resolvable library function into keyword form (parameter order of the callee), so f(a, 0) == f(a, axis=0)"""
+    import copy
+    from sa.model import FuncInfo
+    nodes = [copy.deepcopy(n) for n in nodes]
+    for n in nodes:
+        for c in ast.walk(n):
+            if isinstance(c, ast.Call) and isinstance(c.func, ast.Name):
+                t = prog.resolve_name(f.module, c.func.id)
+                if isinstance(t, FuncInfo) and not any(isinstance(a, ast.Starred) for a in c.args):
+                    pn = t.params()
+                    kw = [ast.keyword(arg=pn[i], value=a) for i, a in enumerate(c.args) if i < len(pn)]
+                    if len(c.args) <= len(pn):
+                        allk = kw + list(c.keywords)
+                        allk.sort(key=lambda k: pn.index(k.arg) if k.arg in pn else 99)
+                        c.args, c.keywords = [], allk
+    return nodes
+
+
 def check_pipeline(prog, rep):
     for cname in CFGS:
         c = prog.get_class(cname, SEL + "cfg." + cname)
@@ -196,7 +216,8 @@ def check_pipeline(prog, rep):
         mate = "Mate" in cname
         kind = [k for k in ("Subset", "Real", "Integer", "Binary") if cname.startswith(k)][0]
         stmts = [s for s in body_nodoc(f.node) if not isinstance(s, (ast.If, ast.Return))]
-        txt = [dump(s) for s in stmts]
+        params = tuple(f.params())
+        txt = alpha_normalise(_canon_calls(prog, f, stmts), keep=params)
         size = "(self.ncross,)" if mate else "(self.ncross, self.nparent)"
         if kind == "Subset":
             draw = ["out = tiled_choice(self.xconfig_decn, size=%s, replace=False, rng=self.rng)" % size]
@@ -206,7 +227,7 @@ def check_pipeline(prog, rep):
             draw = ["options = numpy.repeat(numpy.arange(len(self.xconfig_decn)), self.xconfig_decn)", "out = tiled_choice(options, size=%s, replace=False, rng=self.rng)" % size]
         tail = (["self.rng.shuffle(out)", "out = self.xconfig_xmap[out, :]", "self.xconfig = out"] if mate
                 else ["outcross_shuffle(out, rng=self.rng)", "axis_shuffle(out, 0, rng=self.rng)", "self.xconfig = out"])
-        want = draw + tail
+        want = alpha_normalise(_canon_calls(prog, f, ast.parse("\n".join(draw + tail)).body), keep=params)
         if txt == want:
             rep.ok("R2-pipeline", construct, " ; ".join(want), sample={"configuration": cname, "pipeline": want})
             continue
@@ -223,8 +244,10 @@ def check_pipeline(prog, rep):
             elif any(t.split("(")[0] == w.split("(")[0] for t in txt):
                 other = [t for t in txt if t.split("(")[0] == w.split("(")[0]][0]
                 rep.violate("R2-pipeline", construct, "step `%s` is `%s`" % (step, other[:110]), where(f), w[:110], other[:110])
-            else:
+            elif step in ("outcross_shuffle", "axis_shuffle", "tiled_choice", "stochastic_universal_sampling") or "shuffle" in step:
                 rep.violate("R2-pipeline", construct, "step `%s` is missing from the sampling pipeline" % w[:70], where(f), w[:110], "absent")
+            else:
+                rep.unrec("R2-pipeline", construct, "pipeline statement `%s` is written differently: %s" % (w[:60], g[:60]))
             reported = True
             break
         if not reported and len(txt) > len(want):
@@ -244,10 +267,10 @@ def check_xmap(prog, rep):
             continue
         rep.saw(f)
         txt = dump(f.node)
-        sts = [dump(n.value) for n in ast.walk(f.node) if isinstance(n, ast.Assign) and dump(n.targets[0]) == "st"]
+        sts = [dump(n.value) for n in ast.walk(f.node) if isinstance(n, ast.Assign) and isinstance(n.value, ast.IfExp) and "len(l)" in dump(n.value.test)]
         if sts != [start]:
             rep.violate("R3-xmap", f.qualname, "each level starts at %s, expected %s (%s parents)" % (sts, start, "repeated" if name == "triuix" else "distinct"), where(f), start, str(sts))
-        elif "len(l) == k - 1" in txt and txt.count("for i in range(st, n)") == 2 and "yield list(l)" in txt and "yield from recurse(l, n, k)" in txt and "yield from recurse([], n, k)" in txt:
+        elif "len(l) == k - 1" in txt and len(re.findall(r"for \w+ in range\(\w+, n\)", txt)) == 2 and "yield list(l)" in txt and "yield from recurse(l, n, k)" in txt and "yield from recurse([], n, k)" in txt:
             rep.ok("R3-xmap", f.qualname, "k nested levels over range(st, n), level start %s" % start)
         else:
             rep.unrec("R3-xmap", f.qualname, "generator body not in the modelled form")
